@@ -811,6 +811,12 @@ let rec name_eqb a b =
      | [] -> false
      | y :: b' -> (&&) (N.eqb x y) (name_eqb a' b'))
 
+type token =
+| Lambda
+| Lparen
+| Rparen
+| Number of nat
+
 type atok =
 | TLam of name
 | TLp
@@ -856,8 +862,9 @@ let rec lex_cla st i = function
 | [] ->
   (match st with
    | LTop -> LexOk []
-   | LName nm -> LexOk ((TName nm) :: [])
-   | _ -> LexBad)
+   | LBinder0 -> LexOk ((TLam []) :: [])
+   | LBinder nm -> LexOk ((TLam nm) :: [])
+   | LName nm -> LexOk ((TName nm) :: []))
 | c :: r0 ->
   let push = fun t res ->
     match res with
@@ -880,7 +887,7 @@ let rec lex_cla st i = function
   (match st with
    | LTop -> top ()
    | LBinder0 ->
-     if (&&) c.is_alphabetic (negb (is_char c_dot c))
+     if c.is_alphabetic
      then lex_cla (LBinder (c.code :: [])) (S i) r0
      else LexBad
    | LBinder nm ->
@@ -903,118 +910,140 @@ let rec index_of nm = function
   then Some O
   else option_map (fun x0 -> S x0) (index_of nm r0)
 
+(** val res_group :
+    nat -> name list -> name list -> atok list -> (token list * atok
+    list) * name list **)
+
+let rec res_group fuel env frees toks =
+  match fuel with
+  | O -> (([], toks), frees)
+  | S f ->
+    (match toks with
+     | [] -> (([], []), frees)
+     | a :: r0 ->
+       (match a with
+        | TLam b ->
+          let (p, fr) = res_group f (b :: env) frees r0 in
+          let (o, rest) = p in (((Lambda :: o), rest), fr)
+        | TLp ->
+          let (p, fr1) = res_group f env frees r0 in
+          let (o1, rest1) = p in
+          let (p0, fr2) = res_group f env fr1 (tl rest1) in
+          let (o2, rest2) = p0 in (((Lparen :: (app o1 o2)), rest2), fr2)
+        | TRp -> (((Rparen :: []), toks), frees)
+        | TIdx n0 ->
+          let (p, fr) = res_group f env frees r0 in
+          let (o, rest) = p in ((((Number n0) :: o), rest), fr)
+        | TName s ->
+          (match index_of s env with
+           | Some i ->
+             let (p, fr) = res_group f env frees r0 in
+             let (o, rest) = p in ((((Number (S i)) :: o), rest), fr)
+           | None ->
+             let frees' =
+               match index_of s frees with
+               | Some _ -> frees
+               | None -> app frees (s :: [])
+             in
+             let j = match index_of s frees' with
+                     | Some j -> j
+                     | None -> O in
+             let (p, fr) = res_group f env frees' r0 in
+             let (o, rest) = p in
+             ((((Number (add (add (length env) j) (S O))) :: o), rest), fr))))
+
+(** val resolve : atok list -> token list **)
+
+let resolve toks =
+  let (p, _) = res_group (S (length toks)) [] [] toks in let (o, _) = p in o
+
 (** val apps : term list -> term option **)
 
 let apps = function
 | [] -> None
 | t :: r0 -> Some (fold_left (fun x x0 -> App (x, x0)) r0 t)
 
-(** val rgroup :
-    nat -> name list -> name list -> atok list -> ((term * atok list) * name
-    list) option **)
+(** val rgroup : nat -> token list -> (term * token list) option **)
 
-let rec rgroup fuel env frees toks =
+let rec rgroup fuel toks =
   match fuel with
   | O -> None
   | S f ->
     let ratoms =
-      let rec ratoms fuel2 frees0 toks0 =
+      let rec ratoms fuel2 toks0 =
         match fuel2 with
         | O -> None
         | S f2 ->
           (match toks0 with
-           | [] -> Some (([], toks0), frees0)
-           | a :: r0 ->
-             (match a with
-              | TLam _ -> Some (([], toks0), frees0)
-              | TLp ->
-                (match rgroup f env frees0 r0 with
+           | [] -> Some ([], toks0)
+           | t :: r0 ->
+             (match t with
+              | Lambda -> Some ([], toks0)
+              | Lparen ->
+                (match rgroup f r0 with
                  | Some p ->
-                   let (p0, frees') = p in
-                   let (t, l) = p0 in
+                   let (t0, l) = p in
                    (match l with
                     | [] -> None
-                    | a0 :: r' ->
-                      (match a0 with
-                       | TLam _ -> None
-                       | TLp -> None
-                       | TRp ->
-                         (match ratoms f2 frees' r' with
-                          | Some p1 ->
-                            let (p2, fr) = p1 in
-                            let (ts, r'') = p2 in Some (((t :: ts), r''), fr)
+                    | t1 :: r' ->
+                      (match t1 with
+                       | Rparen ->
+                         (match ratoms f2 r' with
+                          | Some p0 ->
+                            let (ts, r'') = p0 in Some ((t0 :: ts), r'')
                           | None -> None)
+                       | Number _ -> None
                        | _ -> None))
                  | None -> None)
-              | TRp -> Some (([], toks0), frees0)
-              | TIdx n0 ->
-                (match ratoms f2 frees0 r0 with
-                 | Some p ->
-                   let (p0, fr) = p in
-                   let (ts, r') = p0 in Some ((((Var n0) :: ts), r'), fr)
-                 | None -> None)
-              | TName s ->
-                (match index_of s env with
-                 | Some i ->
-                   (match ratoms f2 frees0 r0 with
-                    | Some p ->
-                      let (p0, fr) = p in
-                      let (ts, r') = p0 in
-                      Some ((((Var (S i)) :: ts), r'), fr)
-                    | None -> None)
-                 | None ->
-                   let frees' =
-                     match index_of s frees0 with
-                     | Some _ -> frees0
-                     | None -> app frees0 (s :: [])
-                   in
-                   (match index_of s frees' with
-                    | Some j ->
-                      (match ratoms f2 frees' r0 with
-                       | Some p ->
-                         let (p0, fr) = p in
-                         let (ts, r') = p0 in
-                         Some ((((Var
-                         (add (add (length env) j) (S O))) :: ts), r'), fr)
-                       | None -> None)
-                    | None -> None))))
+              | Rparen -> Some ([], toks0)
+              | Number n0 ->
+                (match ratoms f2 r0 with
+                 | Some p -> let (ts, r') = p in Some (((Var n0) :: ts), r')
+                 | None -> None)))
       in ratoms
     in
-    (match ratoms fuel frees toks with
+    (match ratoms fuel toks with
      | Some p ->
-       let (p0, frees1) = p in
-       let (atoms, rest) = p0 in
+       let (atoms, rest) = p in
        (match rest with
         | [] ->
           (match apps atoms with
-           | Some t -> Some ((t, rest), frees1)
+           | Some t -> Some (t, rest)
            | None -> None)
-        | a :: rest' ->
-          (match a with
-           | TLam b ->
-             (match rgroup f (b :: env) frees1 rest' with
-              | Some p1 ->
-                let (p2, frees2) = p1 in
-                let (body, rest'') = p2 in
+        | t :: rest' ->
+          (match t with
+           | Lambda ->
+             (match rgroup f rest' with
+              | Some p0 ->
+                let (body, rest'') = p0 in
                 (match apps (app atoms ((Abs body) :: [])) with
-                 | Some t -> Some ((t, rest''), frees2)
+                 | Some t0 -> Some (t0, rest'')
                  | None -> None)
               | None -> None)
            | _ ->
              (match apps atoms with
-              | Some t -> Some ((t, rest), frees1)
+              | Some t0 -> Some (t0, rest)
               | None -> None)))
      | None -> None)
 
-(** val rparse : atok list -> term option **)
+(** val idx_tokens : atok list -> token list **)
+
+let idx_tokens ts =
+  map (fun t ->
+    match t with
+    | TLam _ -> Lambda
+    | TLp -> Lparen
+    | TRp -> Rparen
+    | TIdx n0 -> Number n0
+    | TName _ -> Number O) ts
+
+(** val rparse : token list -> term option **)
 
 let rparse toks =
-  match rgroup (S (length toks)) [] [] toks with
-  | Some p ->
-    let (p0, _) = p in
-    let (t, l0) = p0 in (match l0 with
-                         | [] -> Some t
-                         | _ :: _ -> None)
+  match rgroup (S (length toks)) toks with
+  | Some p -> let (t, l) = p in (match l with
+                                 | [] -> Some t
+                                 | _ :: _ -> None)
   | None -> None
 
 type ref_result =
@@ -1026,9 +1055,10 @@ type ref_result =
 
 let ref_parse classic s =
   match if classic then lex_cla LTop O s else lex_dbr O s with
-  | LexOk ts -> (match rparse ts with
-                 | Some t -> RefOk t
-                 | None -> RefErr)
+  | LexOk ts ->
+    (match rparse (if classic then resolve ts else idx_tokens ts) with
+     | Some t -> RefOk t
+     | None -> RefErr)
   | LexBadStart (i, c) -> RefBadStart (i, c)
   | LexBad -> RefErr
 
@@ -2061,12 +2091,6 @@ type parse_error =
 | InvalidCharacter of nat * n
 | InvalidExpression
 | EmptyExpression
-
-type token =
-| Lambda
-| Lparen
-| Rparen
-| Number of nat
 
 type ctoken =
 | CLambda of name
@@ -3233,10 +3257,12 @@ let lc_num_church_shr =
     ((Var (S (S O))), (Var (S (S (S (S O))))))))))))), (Abs (Var (S (S
     O)))))), (Abs (Var (S O)))))))))), (Var (S (S O))))))), (Var (S (S (S
     O)))))), (Var (S (S O))))))), (Var (S (S O)))))))))), (Abs (Var (S
-    O)))))))))), (Var (S (S O))))), (App ((App ((Abs (Abs (Abs (App ((Var (S
-    (S (S O)))), (App ((Var (S (S O))), (Var (S O))))))))), (App ((Abs (Abs
-    (Abs (App ((Var (S (S O))), (App ((App ((Var (S (S (S O)))), (Var (S (S
-    O))))), (Var (S O))))))))), (Abs (Abs (App ((Var (S (S O))), (Var (S
+    O)))))))))), (Var (S (S O))))), (App ((App ((Abs (Abs (App ((App ((App
+    ((Abs (App ((App ((Var (S O)), (Abs (Abs (Abs (Var (S O))))))), (Abs (Abs
+    (Var (S (S O)))))))), (Var (S O)))), (Abs (Abs (App ((Var (S (S O))),
+    (Var (S O)))))))), (App ((Var (S O)), (Var (S (S O))))))))), (App ((Abs
+    (Abs (Abs (App ((Var (S (S O))), (App ((App ((Var (S (S (S O)))), (Var (S
+    (S O))))), (Var (S O))))))))), (Abs (Abs (App ((Var (S (S O))), (Var (S
     O)))))))))), (Var (S O)))))))))
 
 (** val lc_num_church_is_even : term **)
